@@ -59,7 +59,13 @@ func GetConsensusMapAggregator[K comparable, T any](
 	consensus := make(map[K]T)
 
 	for key, values := range items {
-		if thresh, ok := f.Get(key); ok && len(values) < int(thresh) {
+		thresh, ok := f.Get(key)
+		if !ok {
+			// no threshold for the key (e.g. no consensus on its f): there is nothing to aggregate against.
+			lggr.Warnf("no threshold for %s key %v, skipping", objectName, key)
+			continue
+		}
+		if len(values) < int(thresh) {
 			lggr.Warnf("could not reach consensus on %s for key %v", objectName, key)
 			continue
 		}
